@@ -401,7 +401,7 @@ class ParameterSet(NamedItem):
             # First check units for all quantities
             for k, v in tdve.ts.items():
                 if units != v.units.strip().lower():
-                    message = f'The units for quantity "{framework.get_label(name)}" in the databook do not match the units in the framework. Expecting "{units}" but the databook contained "{ts.units.strip().lower()}"'
+                    message = f'The units for quantity "{framework.get_label(name)}" in the databook do not match the units in the framework. Expecting "{units}" but the databook contained "{v.units.strip().lower()}"'
                     raise Exception(message)
 
             # Then populate the parameter time series
